@@ -151,7 +151,7 @@ def check(plan) -> Result:
         cur = current.get(n, 0)
         if cur is not None and val < cur:
             src = "schema-default" if n in injected else "default-list"
-            r.bad(f"C16:shrink:{n}:{src}", f"{ver}: NCP reports {cur}, bellows wrote {val}; plan {plan}")
+            r.bad(f"C16:shrink:{n}:{src}:{ver}", f"{ver}: NCP reports {cur}, bellows wrote {val}; plan {plan}")
     # buffer count last
     if "CONFIG_PACKET_BUFFER_COUNT" in names:
         idx = names.index("CONFIG_PACKET_BUFFER_COUNT")
